@@ -544,8 +544,12 @@ def report():
              "`argswap` (two call arguments whose declared parameter types are spelled the same), `narrow` (int32(x) -> int32(int16(x)), uint64(x) -> uint64(uint32(x)), ...). "
              "Each mutant is applied to a scratch worktree of /repo under /tmp; `go build ./...` must pass (else *stillborn*); the mutated file's "
              "package tests (`go test -vet=off -count=1 ./<pkg>/`, bmtree also with `-tags debug`) are run (*killed by the suite* when they fail); "
-             "the others are judged by `VERIF_REPO=<worktree> ./check PID --tier quick` (timeout per mutant 300 s). Mutants are taken in a seeded "
-             "deterministic order, operator classes interleaved, until the stated number has survived the suite.\n")
+             "the others are judged by `VERIF_REPO=<worktree> VERIF_NO_ESCALATE=1 ./check PID --tier quick` (timeout per mutant: 300 s or 3x the time of the "
+             "check on the unchanged tree). `VERIF_NO_ESCALATE=1` switches off the escalation of `./check` (a clean quick pass on a tree whose anchored "
+             "files differ from the baseline is otherwise followed by a thorough-size generation run of up to 4 minutes): the sweep measures the plain "
+             "quick pass, so a SURVIVOR here may still be caught by the escalated pass of a real run. Mutants are taken in a seeded "
+             "deterministic order, operator classes interleaved, until the stated number has survived the suite; in the final state every mutant of "
+             "every property was tested (tested = mutants generated).\n")
     L.append("## Summary\n")
     L.append("| property | files | sites | mutants generated | tested | stillborn | killed by the suite | survived the suite | detected by ./check | by hang | tool error / inconclusive | SURVIVORS | of those: equivalent / out-of-domain / GAP (closed by corpus) / untriaged |")
     L.append("|---|---|---|---|---|---|---|---|---|---|---|---|---|")
